@@ -86,10 +86,14 @@ func c17Case(b *Batch, idx int) {
 		skip, skipName = 0, "default"
 	case r < 3:
 		skip, skipName = -time.Duration(1+rng.Intn(1000))*time.Millisecond, "negative"
-	case r < 11:
+	case r < 8:
 		skip, skipName = time.Millisecond, "1ms"
-	case r < 18:
+	case r < 11:
+		skip, skipName = 900*time.Microsecond, "900us" // below one millisecond
+	case r < 15:
 		skip, skipName = 20*time.Millisecond, "20ms"
+	case r < 18:
+		skip, skipName = 20*time.Millisecond+900*time.Microsecond, "20.9ms" // not a whole number of milliseconds
 	default:
 		skip, skipName = 200*time.Millisecond, "200ms"
 	}
